@@ -12,6 +12,7 @@
 import GIV.Lemmas.ProxySpec
 import GIV.Lemmas.ProxyGo
 import GIV.Lemmas.SemverGo
+import GIV.Lemmas.ModuleGo
 namespace GIV.C20
 open GIV GIV.Proxy
 
@@ -643,5 +644,137 @@ example : GIV.Go.Semver.parseInt (lit "12.3") = some (lit "12", lit ".3", true) 
 example : GIV.Go.Semver.parseInt (lit "012") = some ([], [], false) := by decide +kernel
 example : GIV.Go.Semver.comparePrerelease (lit "-a") (lit ".a") = some (-1) ∧
     Proxy.comparePrerelease (lit "-a") (lit ".a") = 0 := by decide +kernel
+
+/-! ### golang.org/x/mod/module, translated from the library source
+
+`proxy factgen` also translates `GOMODCACHE/golang.org/x/mod@<version /repo requires>/module/module.go` —
+`modPathOK importPathOK fileNameOK firstPathOK checkElem checkPath splitGopkgIn SplitPathVersion CheckPath
+CheckPathMajor MatchPathMajor Check escapeString unescapeString EscapePath EscapeVersion UnescapePath
+UnescapeVersion` — into GIV.Gen.ModuleGo (namespace GIV.Go.Module; `for i, r := range s` iterates over the
+(offset, rune) pairs `GoLib.runesIdx s`, errors are opaque `GoError`s, `CheckPath`'s deferred error wrapper runs at
+every return, the Unicode tables are the parameter `u`).  GIV.Lemmas.ModuleGo* prove the translation equal to the
+model's transcription (sections "golang.org/x/mod/module" of GIV.Model.Proxy), which until now was only
+correspondence-checked.  Errors are compared as nil / non-nil (`Option.isNone`); `okOf (s, err)` is `some s` when
+`err` is nil. -/
+
+open GIV.ModuleGo (FoldOK okOf) in
+/-- For all strings and all Unicode tables `u` whose `strings.EqualFold` is ASCII case-insensitive equality on ASCII
+strings (`FoldOK`; nothing is assumed of `unicode.IsLetter`): no index, slice or loop of the translated functions
+ever fails, and
+* `UnescapePath`, `UnescapeVersion`, `EscapePath`, `EscapeVersion` (what the proxy decodes the file names of the
+  served directory and the URLs with, and encodes archive names with) return the model's `unescapePath`,
+  `unescapeVersion`, `escapePath`, `escapeVersion` — an error exactly where the model has `none`;
+* `CheckPath` and `Check` (the list endpoint's filter) return nil exactly when the model's `checkPath` / `check` hold;
+* `SplitPathVersion` is the model's `splitPathVersion`; `CheckPathMajor` is nil exactly when the model's
+  `checkPathMajor` holds, and `MatchPathMajor` is that Boolean. -/
+theorem go_module_agrees (u : GIV.GoLib.Unicode) (hu : FoldOK u) (e p v pm : Bytes) :
+    (GIV.Go.Module.UnescapePath u e).map okOf = some (unescapePath e) ∧
+    (GIV.Go.Module.UnescapeVersion u e).map okOf = some (unescapeVersion e) ∧
+    (GIV.Go.Module.EscapePath u p).map okOf = some (escapePath p) ∧
+    (GIV.Go.Module.EscapeVersion u v).map okOf = some (escapeVersion v) ∧
+    (GIV.Go.Module.CheckPath u p).map Option.isNone = some (checkPath p) ∧
+    (GIV.Go.Module.Check u p v).map Option.isNone = some (check p v) ∧
+    GIV.Go.Module.SplitPathVersion u p = some (splitPathVersion p) ∧
+    (GIV.Go.Module.CheckPathMajor u v pm).map Option.isNone = some (checkPathMajor v pm) ∧
+    GIV.Go.Module.MatchPathMajor u v pm = some (checkPathMajor v pm) :=
+  ⟨GIV.ModuleGo.UnescapePath_eq u hu e, GIV.ModuleGo.UnescapeVersion_eq u hu e, GIV.ModuleGo.EscapePath_eq u hu p,
+   GIV.ModuleGo.EscapeVersion_eq u hu v, GIV.ModuleGo.CheckPath_eq u hu p, GIV.ModuleGo.Check_eq u hu p v,
+   GIV.ModuleGo.SplitPathVersion_eq u p, GIV.ModuleGo.CheckPathMajor_eq u v pm, GIV.ModuleGo.MatchPathMajor_eq u v pm⟩
+
+-- the hypothesis is satisfiable: the ASCII tables
+example : GIV.ModuleGo.FoldOK GIV.GoLib.Unicode.ascii := GIV.ModuleGo.foldOK_ascii
+
+/-- the ASCII tables, for the closed examples -/
+abbrev exU : GIV.GoLib.Unicode := GIV.GoLib.Unicode.ascii
+
+-- the generated definitions, evaluated by the kernel
+example : GIV.Go.Module.UnescapePath exU (lit "github.com/!azure/x") = some (lit "github.com/Azure/x", none) := by
+  decide +kernel
+example : (GIV.Go.Module.UnescapePath exU (lit "a/!!b")).map (·.2.isSome) = some true := by decide +kernel
+example : (GIV.Go.Module.UnescapePath exU (lit "github.com/Azure/x")).map (·.2.isSome) = some true := by decide +kernel
+example : (GIV.Go.Module.UnescapePath exU (lit "example.com/x!")).map (·.2.isSome) = some true := by decide +kernel
+example : GIV.Go.Module.UnescapeVersion exU (lit "v1.0.0-!r!c1") = some (lit "v1.0.0-RC1", none) := by decide +kernel
+example : (GIV.Go.Module.UnescapeVersion exU (lit "v1/0")).map (·.2.isSome) = some true := by decide +kernel
+example : GIV.Go.Module.EscapePath exU (lit "github.com/Azure/x") = some (lit "github.com/!azure/x", none) := by
+  decide +kernel
+example : GIV.Go.Module.EscapeVersion exU (lit "v1.0.0-RC1") = some (lit "v1.0.0-!r!c1", none) := by decide +kernel
+example : GIV.Go.Module.SplitPathVersion exU (lit "example.com/m/v2") = some (lit "example.com/m", lit "/v2", true) := by
+  decide +kernel
+example : GIV.Go.Module.SplitPathVersion exU (lit "example.com/m/v1") = some (lit "example.com/m/v1", [], false) := by
+  decide +kernel
+example : GIV.Go.Module.SplitPathVersion exU (lit "gopkg.in/yaml.v2-unstable") =
+    some (lit "gopkg.in/yaml", lit ".v2-unstable", true) := by decide +kernel
+example : GIV.Go.Module.CheckPath exU (lit "example.com/m/v2") = some none := by decide +kernel
+example : (GIV.Go.Module.CheckPath exU (lit "example.com/con.txt/x")).map Option.isSome = some true := by decide +kernel
+example : (GIV.Go.Module.CheckPath exU (lit "example.com/abc~12")).map Option.isSome = some true := by decide +kernel
+example : (GIV.Go.Module.CheckPath exU (lit "example.com//x")).map Option.isSome = some true := by decide +kernel
+example : (GIV.Go.Module.CheckPath exU (lit "Example.com/x")).map Option.isSome = some true := by decide +kernel
+example : (GIV.Go.Module.CheckPath exU [101, 46, 99, 47, 0xC3, 0xA9]).map Option.isSome = some true := by decide +kernel
+example : GIV.Go.Module.Check exU (lit "example.com/m/v2") (lit "v2.1.0") = some none := by decide +kernel
+example : (GIV.Go.Module.Check exU (lit "example.com/m/v2") (lit "v1.1.0")).map Option.isSome = some true := by
+  decide +kernel
+example : GIV.Go.Module.Check exU (lit "example.com/m") (lit "v2.0.0+incompatible") = some none := by decide +kernel
+example : GIV.Go.Module.MatchPathMajor exU (lit "v0.0.0-20161208181325-20d25e280405") (lit ".v1") = some true := by
+  decide +kernel
+
+open GIV.ModuleGo (FoldOK okOf Ascii) in
+/-- The parts, each against the model's transcription:
+* `unescapeString` / `escapeString` for every byte string, valid UTF-8 or not (`("", false)` / an error is the
+  model's `none`);
+* `checkElem(elem, modulePath)` for every string, `checkElem(elem, filePath)` for every ASCII string (what
+  `unescapeString` returns, `unescapeString_ascii`; on a string with a byte ≥ 128 Go consults `unicode.IsLetter`, the
+  model answers false, and `EscapeVersion` — the only caller that passes such a string — then fails in
+  `escapeString`) and without a panic for every string;
+* `checkPath(path, modulePath)` = the model's `checkPathElems` (Go's UTF-8, `//` and trailing-slash tests are implied
+  by the element tests); `splitGopkgIn` (Go's tests the `gopkg.in/` prefix itself);
+* the character classes on runes: exact on ASCII, false from 128 on. -/
+theorem go_module_parts (u : GIV.GoLib.Unicode) (hu : FoldOK u) :
+    (∀ e, GIV.Go.Module.unescapeString u e =
+      some (match unescapeString e with | some p => (p, true) | none => ([], false))) ∧
+    (∀ s, (GIV.Go.Module.escapeString u s).map okOf = some (escapeString s)) ∧
+    (∀ e p, unescapeString e = some p → Ascii p) ∧
+    (∀ elem, (GIV.Go.Module.checkElem u elem 0).map Option.isNone = some (checkElem .modulePath elem)) ∧
+    (∀ elem, Ascii elem → (GIV.Go.Module.checkElem u elem 2).map Option.isNone = some (checkElem .filePath elem)) ∧
+    (∀ elem, ∃ r, GIV.Go.Module.checkElem u elem 2 = some r) ∧
+    (∀ path, (GIV.Go.Module.checkPath u path 0).map Option.isNone = some (checkPathElems path)) ∧
+    (∀ path, GIV.Go.Module.splitGopkgIn u path =
+      some (if hasPrefix (lit "gopkg.in/") path then splitGopkgIn path else (path, [], false))) ∧
+    (∀ c : UInt8, GIV.Go.Module.modPathOK u (c.toNat : Int) = some (modPathOK c) ∧
+      GIV.Go.Module.firstPathOK u (c.toNat : Int) = some (firstPathOK c) ∧
+      (c.toNat < 128 → GIV.Go.Module.fileNameOK u (c.toNat : Int) = some (fileNameOK c))) ∧
+    (∀ r : Int, 128 ≤ r → GIV.Go.Module.modPathOK u r = some false ∧ GIV.Go.Module.firstPathOK u r = some false) :=
+  ⟨GIV.ModuleGo.unescapeString_eq u, GIV.ModuleGo.escapeString_eq u, fun _ _ h => GIV.ModuleGo.unescapeString_ascii h,
+   GIV.ModuleGo.checkElem_k0 u hu, GIV.ModuleGo.checkElem_k2 u hu, GIV.ModuleGo.checkElem_k2_total u,
+   GIV.ModuleGo.checkPath_eq u hu, GIV.ModuleGo.splitGopkgIn_eq u,
+   fun c => ⟨by rw [GIV.ModuleGo.modPathOK_go, GIV.ModuleGo.modPathOKI_byte],
+     by rw [GIV.ModuleGo.firstPathOK_go, GIV.ModuleGo.firstPathOKI_byte],
+     fun h => by rw [GIV.ModuleGo.fileNameOK_go, GIV.ModuleGo.fileNameOKI_byte u c h]⟩,
+   fun r h => ⟨by rw [GIV.ModuleGo.modPathOK_go, GIV.ModuleGo.modPathOKI_hi r h],
+     by rw [GIV.ModuleGo.firstPathOK_go, GIV.ModuleGo.firstPathOKI_hi r h]⟩⟩
+
+example : GIV.Go.Module.unescapeString exU (lit "!a!bc") = some (lit "ABc", true) := by decide +kernel
+example : GIV.Go.Module.unescapeString exU [97, 0xC3, 0xA9] = some ([], false) := by decide +kernel
+example : (GIV.Go.Module.checkElem exU (lit "lpt1.x") 0).map Option.isSome = some true := by decide +kernel
+example : GIV.Go.Module.checkElem exU (lit "v1.0.0+incompatible") 2 = some none := by decide +kernel
+example : GIV.GoLib.runesIdx [0x61, 0xC3, 0xA9, 0x2F, 0xFF, 0x62] =
+    [(0, 0x61), (1, 0xE9), (3, 0x2F), (4, 0xFFFD), (5, 0x62)] := by decide +kernel
+
+open GIV.ModuleGo (FoldOK okOf) in
+/-- The codec property (`unescape_escape`) restated over the translated library source: what the translated
+`EscapePath` / `EscapeVersion` produce, the translated `UnescapePath` / `UnescapeVersion` decode to the original, and
+conversely. -/
+theorem go_codec_roundtrip (u : GIV.GoLib.Unicode) (hu : FoldOK u) (p e : Bytes) :
+    ((GIV.Go.Module.EscapePath u p).map okOf = some (some e) ↔ (GIV.Go.Module.UnescapePath u e).map okOf = some (some p)) ∧
+    ((GIV.Go.Module.EscapeVersion u p).map okOf = some (some e) ↔
+      (GIV.Go.Module.UnescapeVersion u e).map okOf = some (some p)) := by
+  rw [GIV.ModuleGo.EscapePath_eq u hu, GIV.ModuleGo.UnescapePath_eq u hu, GIV.ModuleGo.EscapeVersion_eq u hu,
+    GIV.ModuleGo.UnescapeVersion_eq u hu]
+  simp only [Option.some.injEq]
+  exact ⟨⟨unescape_escape.1 p e, unescape_escape.2.2.1 p e⟩, ⟨unescape_escape.2.1 p e, unescape_escape.2.2.2 p e⟩⟩
+
+example : (GIV.Go.Module.EscapePath exU (lit "github.com/Azure/x")).map GIV.ModuleGo.okOf =
+      some (some (lit "github.com/!azure/x")) ∧
+    (GIV.Go.Module.UnescapePath exU (lit "github.com/!azure/x")).map GIV.ModuleGo.okOf =
+      some (some (lit "github.com/Azure/x")) := by decide +kernel
 
 end GIV.C20
